@@ -67,6 +67,8 @@ class Frames:
             out.append({"id": "history/%s/twice" % p, "k": "twice", "p": p, "bounded": "P twice"})
         out.append({"id": "history/shared-include", "k": "shared_include",
                     "bounded": "two programs that INCLUDE the same file at different statement positions, one after the other"})
+        out.append({"id": "history/rejected-include-elsewhere", "k": "rejected_include",
+                    "bounded": "a rejected program whose INCLUDE lies in another directory, then an accepted program with a relative INCLUDE"})
         out.append({"id": "history/fresh-process", "k": "fresh", "native_only": True,
                     "bounded": "corpus in a fresh CPython process vs a warm one, two hash seeds"})
         return out
@@ -113,6 +115,24 @@ class Frames:
         third = _view(assemble(env, pr, want_listing=True, fs=fs))
         env.ensure("C17:same-output-after-other-programs", second[:3] == alone[:3] and third[:3] == alone[:3], ("C17",),
                    lambda: "a program that includes a file another program included before assembles differently")
+
+    def k_rejected_include(self, env, cell, native):
+        """process-level state (working directory, environment) left behind by a REJECTED program would show here"""
+        from pyvc.asmh import end_session
+        fs = {"val.asm": ["VAL     EQU $42\n"], "sub/val.asm": ["VAL     EQU $17\n"], "sub/bad.asm": ["        FROB 12\n"],
+              "sub/deep.asm": ["        INCLUDE nowhere.asm\n"]}
+        pr = ["        ORG $0E00\n", "        INCLUDE val.asm\n", "START   LDA #VAL\n", "        RTS\n"]
+        alone = _view(assemble(env, ["        ORG $0E00\n", "VAL     EQU $42\n", "START   LDA #VAL\n", "        RTS\n"], want_listing=True))
+        ses = {}
+        try:
+            first = _view(assemble(env, pr, want_listing=True, fs=fs, session=ses))
+            for q in (["        ORG $2000\n", "        INCLUDE sub/bad.asm\n"], ["        INCLUDE sub/deep.asm\n"], ["        LDA NOWHERE\n"]):
+                assemble(env, q, want_listing=True, fs=fs, session=ses)
+            again = _view(assemble(env, pr, want_listing=True, fs=fs, session=ses))
+        finally:
+            end_session(ses)
+        env.ensure("C17:same-output-after-other-programs", first[:3] == alone[:3] and again[:3] == alone[:3], ("C17",),
+                   lambda: "a program with a relative INCLUDE assembles differently after rejected programs (%s / %s)" % (first[0], again[0]))
 
     def k_twice(self, env, cell, native):
         p = cell["p"]
